@@ -11,6 +11,7 @@ import (
 	"math/rand"
 	"os"
 	"sort"
+	"testing"
 	"time"
 
 	"verifharness/enc"
@@ -41,6 +42,7 @@ type Violation struct {
 }
 
 type Ctx struct {
+	T      *testing.T
 	Tier   string
 	Seed   int64
 	Rng    *rand.Rand
@@ -94,20 +96,25 @@ func (c *Ctx) Quick() bool { return c.Tier != "thorough" }
 
 var commands = map[string]func(*Ctx){}
 
-func main() {
-	tier := flag.String("tier", "quick", "quick|thorough")
-	seed := flag.Int64("seed", 1, "PRNG seed")
-	out := flag.String("out", "", "case file for the model runner")
-	report := flag.String("report", "", "report JSON")
-	replay := flag.String("replay", "", "replay file")
-	flag.Parse()
+var (
+	flagTier   = flag.String("tier", "quick", "quick|thorough")
+	flagSeed   = flag.Int64("seed", 1, "PRNG seed")
+	flagOut    = flag.String("out", "", "case file for the model runner")
+	flagReport = flag.String("report", "", "report JSON")
+	flagReplay = flag.String("replay", "", "replay file")
+)
+
+// Run is the entry point; the harness is built as a test binary (go test -c)
+// because testing/synctest needs a *testing.T.
+func Run(t *testing.T) {
+	tier, seed, out, report, replay := flagTier, flagSeed, flagOut, flagReport, flagReplay
 	if flag.NArg() != 1 {
 		names := []string{}
 		for k := range commands {
 			names = append(names, k)
 		}
 		sort.Strings(names)
-		fmt.Fprintf(os.Stderr, "usage: kverif [flags] <%v>\n", names)
+		fmt.Fprintf(os.Stderr, "usage: kverif.test -test.run TestKverif [flags] <%v>\n", names)
 		os.Exit(2)
 	}
 	name := flag.Arg(0)
@@ -128,7 +135,7 @@ func main() {
 		w = bufio.NewWriter(os.Stdout)
 	}
 	rep := &Report{Property: name, Tier: *tier, Seed: *seed, Stats: map[string]interface{}{}, Samples: []interface{}{}, Violations: []Violation{}, Known: []Violation{}}
-	ctx := &Ctx{Tier: *tier, Seed: *seed, Rng: rand.New(rand.NewSource(*seed)), Out: w, Rep: rep, Replay: *replay, seen: map[string]struct{}{}}
+	ctx := &Ctx{T: t, Tier: *tier, Seed: *seed, Rng: rand.New(rand.NewSource(*seed)), Out: w, Rep: rep, Replay: *replay, seen: map[string]struct{}{}}
 	start := time.Now()
 	fn(ctx)
 	rep.WallS = time.Since(start).Seconds()
@@ -139,4 +146,9 @@ func main() {
 			panic(err)
 		}
 	}
+}
+
+func main() {
+	fmt.Fprintln(os.Stderr, "kverif is built as a test binary: go test -c; run kverif.test -test.run TestKverif ...")
+	os.Exit(2)
 }
